@@ -7,7 +7,7 @@ import importlib
 from props.base import BaseProp
 from oracle import Recorder
 
-EXN = {"IndexError", "TypeError", "ValueError", "OverflowError", "ZeroDivisionError", "RuntimeError", "KeyError", "ArgumentError"}
+EXN = {"IndexError", "TypeError", "ValueError", "OverflowError", "ZeroDivisionError", "RuntimeError", "KeyError", "ArgumentError", "AssertionError"}
 
 
 def cz(i):
@@ -234,6 +234,25 @@ def gen_args(rng, qual, tier):
         out += [(v,) for v in (128, 160, 192, 224, 256, 0, 1, 31, 32, 33, 64, 127, 129, 512, 2 ** 20)]
     elif qual == "bip85.BIP85DeterministicEntropy.byte_count_from_word_count":
         out += [(v,) for v in list(range(0, 40)) + [-1, 2 ** 31, True]]
+    elif qual == "ripemd.ripemd160":
+        for L in (0, 1, 3, 55, 56, 57, 63, 64, 65, 119, 120, 127, 128, 200):
+            out.append((rb(L),))
+        out += [(b"abc",), (b"a" * 130,), (b"\x00" * 64,), (b"\xff" * 56,)]
+    elif qual == "ripemd.fi":
+        for i in (0, 1, 2, 3, 4, 5, -1):
+            out.append((rng.randrange(0, 2 ** 32), rng.randrange(0, 2 ** 32), rng.randrange(0, 2 ** 32), i))
+            out.append((rng.randrange(-2 ** 33, 2 ** 35), rng.randrange(0, 2 ** 40), -rng.randrange(0, 2 ** 32), i))
+    elif qual == "ripemd.rol":
+        for i in (0, 1, 5, 10, 15, 31, 32, 33, -1):
+            out.append((rng.randrange(0, 2 ** 32), i))
+            out.append((rng.randrange(0, 2 ** 40), i))
+            out.append((-rng.randrange(0, 2 ** 33), i))
+    elif qual == "ripemd.compress":
+        for _ in range(4):
+            out.append(tuple(rng.randrange(0, 2 ** 32) for _ in range(5)) + (rb(64),))
+        out.append(tuple(rng.randrange(2 ** 32, 2 ** 36) for _ in range(5)) + (rb(64),))
+        out.append((1, 2, 3, 4, 5, rb(10)))
+        out.append((1, 2, 3, 4, 5, rb(70)))
     elif qual == "wallet_utils.Bip32Path.is_hardened":
         out += [(v,) for v in (0, 1, 2 ** 31 - 1, 2 ** 31, 2 ** 31 + 1, 2 ** 32, -1, -2 ** 31)]
     elif qual == "wallet_utils.Bip32Path.is_private":
